@@ -282,6 +282,55 @@ def run(ctx):
         if le[i, j] and le[j, k] and not le[i, k]:
             ctx.violation(dict(call='fixup', args=[sub[i], 'LtE-chain', sub[j], sub[k]]),
                           "<= is not transitive", impl=[sub[i], sub[j], sub[k]])
+    # the other order laws proved for non-blank operands (C10_lt_transitive, C10_le_antisymmetric,
+    # C10_le_total, C10_eq_equivalence), evaluated on the implementation over the same sample
+    lt = {(i, j): f(a, 'Lt', b) == ('ok', True) for i, a in enumerate(sub) for j, b in enumerate(sub)}
+    eq = {(i, j): f(a, 'Eq', b) == ('ok', True) for i, a in enumerate(sub) for j, b in enumerate(sub)}
+    for i, j in itertools.product(range(len(sub)), repeat=2):
+        ctx.count(('order-laws', repr(sub[i]), repr(sub[j])), kind='oracle-order')
+        case = dict(call='fixup', args=[sub[i], 'order', sub[j]])
+        if not (le[i, j] or le[j, i]):
+            ctx.violation(case, "neither a <= b nor b <= a", impl=[sub[i], sub[j]])
+        if le[i, j] and le[j, i] and not eq[i, j]:
+            ctx.violation(case, "a <= b and b <= a but not a = b", impl=[sub[i], sub[j]])
+        if eq[i, j] != eq[j, i]:
+            ctx.violation(case, "= is not symmetric", impl=[sub[i], sub[j]])
+        if i == j and not eq[i, i]:
+            ctx.violation(case, "= is not reflexive", impl=[sub[i]])
+        if lt[i, j] != (le[i, j] and not eq[i, j]):
+            ctx.violation(case, "< is not (<= and not =)", impl=[sub[i], sub[j]])
+    for i, j, k in itertools.product(range(len(sub)), repeat=3):
+        ctx.evaluations += 1
+        if lt[i, j] and lt[j, k] and not lt[i, k]:
+            ctx.violation(dict(call='fixup', args=[sub[i], 'Lt-chain', sub[j], sub[k]]),
+                          "< is not transitive", impl=[sub[i], sub[j], sub[k]])
+        if eq[i, j] and eq[j, k] and not eq[i, k]:
+            ctx.violation(dict(call='fixup', args=[sub[i], 'Eq-chain', sub[j], sub[k]]),
+                          "= is not transitive", impl=[sub[i], sub[j], sub[k]])
+    # one number type (C10_arith_value, C10_concat_integral_float): an integral float and the
+    # integer of the same value are interchangeable in every operator, and render without ".0"
+    # whatever their magnitude (up to 2^53, where every integer is a double)
+    ints = [int(v) for v in values if isinstance(v, float) and v == int(v)]
+    ints += [ctx.rng.randrange(-2 ** 53, 2 ** 53) for _ in range(ctx.n(12, 120))] + [2 ** 53, -2 ** 53, 10 ** 15]
+    partners2 = [p_ for p_ in plain if not isinstance(p_, float)][:40] + [0.5, -1.5]
+    for n in ints:
+        x = float(n)
+        got = f(x, 'BitAnd', 'x')
+        ctx.count(('integral-float', n), kind='oracle-integral-float')
+        if got != ('ok', str(n) + 'x'):
+            ctx.violation(dict(call='fixup', args=[x, 'BitAnd', 'x']),
+                          "an integral float does not render as the integer", impl=got, expected=str(n) + 'x')
+        for r in partners2:
+            small = abs(n) <= 2 ** 26           # keep + - * / inside the float-exact domain
+            for o in (['Add', 'Sub', 'Mult', 'Div'] if small else []) + CMP + ['BitAnd']:
+                for a, b in ((x, r), (r, x)):
+                    a2, b2 = (n if a is x else a), (n if b is x else b)
+                    g1, g2 = f(a, o, b), f(a2, o, b2)
+                    ctx.evaluations += 1
+                    if not num_same(g1, g2):
+                        ctx.violation(dict(call='fixup', args=[a, o, b]),
+                                      "an integral float and the integer of the same value give different results",
+                                      impl=g1, expected=g2)
     # ---- correspondence for the generated coercion helpers
     helper_calls = []
     for v in values + [((1, 2), (3, 4)), (('7',),), (1, 2), [1, 2], ((None,),)]:
